@@ -156,6 +156,12 @@ Theorem C11_prune_complete :
 Proof. exact prune_complete_all. Qed.
 Print Assumptions C11_prune_complete.
 
+(** [rep_ok rc raw] is the computed form of this statement (key = identity); the correspondence evaluates it on the
+    implementation's own lists (with every symmetry checked to be an automorphism) and on the model. *)
+Theorem C11_rep_ok : forall (rc : graph) (raw : list mapping), rep_ok rc raw = true.
+Proof. exact rep_ok_true. Qed.
+Print Assumptions C11_rep_ok.
+
 (** The same at the level of functions: when the matches are defined on nodes of the rule centre (as the search
     engine guarantees; Python's sigma[p] would raise otherwise), every raw match m is m' o sigma^-1 for a kept match m'
     and a label-preserving automorphism sigma of the rule centre (all node attributes except atom_map, all edge
